@@ -183,6 +183,15 @@ def specStep [DecidableEq α] (E : Elem α) (sp : Sp α) (op : Op α) : Sp α ×
       | x :: _ => (sMut sp h fun l => l.drop 1, .val x)
       | [] => (sp, .skip)
     else (sp, .skip)
+  | .newp h xs => (sProduce (if sp.occ h then sDrop sp h else sp) h xs, .ok)
+  | .copyp h xs => if sp.occ h then (sMut sp h fun _ => xs, .ok) else (sp, .skip)
+  | .appp h xs => if sp.occ h then (sMut sp h fun l => l ++ xs, .ok) else (sp, .skip)
+  | .sortby h asc =>
+    if sp.occ h then
+      (sMut sp h fun l => (qsortList (if asc then fun a b => decide (E.key a < E.key b)
+        else fun a b => decide (E.key b < E.key a)) l).getD l, .ok)
+    else (sp, .skip)
+  | .iter h => if sp.occ h then (sp, .ok) else (sp, .skip)
 
 /-- what the reference semantics shows through one slot: the sequence and the number of sharing handles -/
 def Sp.view (sp : Sp α) (h : Nat) : Option (List α × Nat) :=
